@@ -9,9 +9,10 @@ import (
 // whatever the order of first executions. Hand-built set
 //
 //	h: T0 {{.}}        a: <p> {{template "h" .}}        b: <p title=" {{template "h" .}} ">
+//	a2: <i> {{template "h" .}}     bad: <p title="     d: {{template "h" .}} <p title="
 //
-// Three calls are chosen symbolically among lookupAndEscapeTemplate("a" | "b" | "h"); commit
-// really rewrites the trees. Afterwards the pipeline of the action in h and in every
+// Up to four calls are chosen symbolically among lookupAndEscapeTemplate of these six (bad and
+// d must fail, the others succeed); commit really rewrites the trees. Afterwards the pipeline of the action in h and in every
 // template derived from h must be the original command followed by exactly the sanitizer
 // chain of the context the action is in - not by chains left over from an earlier analysis
 // of the tree it was copied from.
@@ -68,39 +69,59 @@ func vHarness_C06_order() {
 	call := func() *parse.TemplateNode {
 		return &parse.TemplateNode{NodeType: parse.NodeTemplate, Name: "h", Pipe: c01DotPipe()}
 	}
-	aTree := &parse.Tree{Name: "a", Root: &parse.ListNode{NodeType: parse.NodeList, Nodes: []parse.Node{c01TextNode("<p>"), call()}}}
-	bTree := &parse.Tree{Name: "b", Root: &parse.ListNode{NodeType: parse.NodeList, Nodes: []parse.Node{c01TextNode(`<p title="`), call(), c01TextNode(`">`)}}}
-	tt := template.New("a")
-	ta, err0 := tt.AddParseTree("a", aTree)
-	tb, err1 := tt.AddParseTree("b", bTree)
-	th, err2 := tt.AddParseTree("h", hTree)
-	if err0 != nil || err1 != nil || err2 != nil {
-		return
+	list := func(ns ...parse.Node) *parse.ListNode { return &parse.ListNode{NodeType: parse.NodeList, Nodes: ns} }
+	// a, a2: callers of h in element content; b: a caller inside a quoted attribute value;
+	// bad: cannot be contextualized and calls nothing; d: calls h in element content and then
+	// cannot be contextualized (its analysis leaves h's edits pending)
+	trees := []*parse.Tree{
+		{Name: "a", Root: list(c01TextNode("<p>"), call())},
+		{Name: "b", Root: list(c01TextNode(`<p title="`), call(), c01TextNode(`">`))},
+		hTree,
+		{Name: "bad", Root: list(c01TextNode(`<p title="`))},
+		{Name: "a2", Root: list(c01TextNode("<i>"), call())},
+		{Name: "d", Root: list(call(), c01TextNode(`<p title="`))},
 	}
+	tt := template.New("a")
 	ns := &nameSpace{set: map[string]*Template{}}
 	ns.esc = makeEscaper(ns)
-	tmA := &Template{text: ta, Tree: aTree, nameSpace: ns}
-	ns.set["a"] = tmA
-	ns.set["b"] = &Template{text: tb, Tree: bTree, nameSpace: ns}
-	ns.set["h"] = &Template{text: th, Tree: hTree, nameSpace: ns}
-	names := [3]string{"a", "b", "h"}
-	done := [3]bool{}
+	var tmA *Template
+	for _, tr := range trees {
+		t, err := tt.AddParseTree(tr.Name, tr)
+		if err != nil {
+			return
+		}
+		tm := &Template{text: t, Tree: tr, nameSpace: ns}
+		ns.set[tr.Name] = tm
+		if tmA == nil {
+			tmA = tm
+		}
+	}
+	names := [6]string{"a", "b", "h", "bad", "a2", "d"}
+	mustFail := [6]bool{false, false, false, true, false, true}
+	done := [6]bool{}
 	// class of the known finding: h was analysed and rewritten for element content before the
 	// copy for the attribute context was taken from it
 	textFirst := false
-	for k := 0; k < 3; k++ {
+	calls := vParam("calls")
+	for k := 0; k < calls; k++ {
 		var op int
 		switch k {
 		case 0:
-			op = vNondetInt("op0", 0, 2)
+			op = vNondetInt("op0", 0, 5)
 		case 1:
-			op = vNondetInt("op1", 0, 2)
+			op = vNondetInt("op1", 0, 5)
+		case 2:
+			op = vNondetInt("op2", 0, 5)
 		default:
-			op = vNondetInt("op2", 0, 2)
+			op = vNondetInt("op3", 0, 5)
 		}
 		_, err := tmA.lookupAndEscapeTemplate(names[op])
-		vAssert(err == nil, "a template of the set is refused although each of them is analysable on its own")
-		if op == 1 && !done[1] && (done[0] || done[2]) {
+		if mustFail[op] {
+			vAssert(err != nil, "a template that cannot be contextualized is accepted")
+		} else {
+			vAssert(err == nil, "a template of the set is refused although it is analysable on its own")
+		}
+		if op == 1 && !done[1] && (done[0] || done[2] || done[4] || done[5]) {
 			textFirst = true
 		}
 		done[op] = true
@@ -110,7 +131,9 @@ func vHarness_C06_order() {
 	if errT != nil || errA != nil {
 		return
 	}
-	if done[0] || done[2] {
+	if done[0] || done[2] || done[4] {
+		// h was executed, on its own or through an accepted caller: its action carries the
+		// element-content sanitizers, once
 		vReach("text-use")
 		c06Check(action, textChain, "h, used in element content", false)
 	}
